@@ -605,18 +605,24 @@ def resolveMath (orc : Orc) (m : MathCfg) (input : V) : Except E V :=
   | .flt _ =>
     match m.getType with
     | "Multiply" => orcVal orc input "fmul"
+    -- float comparisons are library behaviour: "ltMin" = (f < float64(clampMin)), "gtMax" = (f > float64(clampMax))
     | "ClampMin" =>
-      match orcVal orc input "trunc" with
-      | .ok (.num t) => if t < m.clampMin.getD 0 then .ok (.num (m.clampMin.getD 0)) else .ok input
+      match orcVal orc input "ltMin" with
+      | .ok (.bool lt) => if lt then .ok (.num (m.clampMin.getD 0)) else .ok input
       | .ok _ => .error .oracleMiss
       | .error e => .error e
     | "ClampMax" =>
-      match orcVal orc input "trunc" with
-      | .ok (.num t) => if t > m.clampMax.getD 0 then .ok (.num (m.clampMax.getD 0)) else .ok input
+      match orcVal orc input "gtMax" with
+      | .ok (.bool gt) => if gt then .ok (.num (m.clampMax.getD 0)) else .ok input
       | .ok _ => .error .oracleMiss
       | .error e => .error e
     | _ => .error .mathCfg
   | _ => .error .mathInput
+
+/-- resolveMathClamp for a float64 input as written at the pinned commit: the input is truncated
+to int64 ("trunc") before the comparison, so a fractional excess goes unnoticed (defect D17). -/
+def clampMaxFloatUnfixed (trunc : Int) (max : Int) (input : V) : V :=
+  if trunc > max then .num max else input
 
 def lookupRaw (k : String) : List (String × Raw) → Option Raw
   | [] => none
